@@ -223,7 +223,27 @@ func (s *ccSys) canon() string {
 		parts = append(parts, fmt.Sprintf("%s:%d/%d", k, s.T-e.setAt, e.expire))
 	}
 	sort.Strings(parts)
-	return fmt.Sprintf("ph%d|draw%g|%v|lru%v", s.T%slots, s.draw, parts, s.lru)
+	// the real cache: stored keys, LRU order, and the expiry wheel's live timers
+	var data, lru, timers []string
+	for k := range s.c.data {
+		data = append(data, k)
+	}
+	sort.Strings(data)
+	if kl, ok := s.c.lruCache.(*keyLru); ok {
+		for e := kl.evicts.Front(); e != nil; e = e.Next() {
+			lru = append(lru, fmt.Sprint(e.Value))
+		}
+	}
+	w := s.c.timingWheel
+	w.timers.Range(func(k, v any) bool {
+		pe := v.(*positionEntry)
+		if !pe.item.removed {
+			timers = append(timers, fmt.Sprintf("%v@%d/c%d/d%d", k, (pe.pos-w.tickedPos-1+2*w.numSlots)%w.numSlots, pe.item.circle, pe.item.diff))
+		}
+		return true
+	})
+	sort.Strings(timers)
+	return fmt.Sprintf("ph%d|draw%g|%v|lru%v|real=%v/%v/%v", s.T%slots, s.draw, parts, s.lru, data, lru, timers)
 }
 
 func TestVerifCacheHistories(t *testing.T) {
